@@ -12,9 +12,10 @@ from . import vtypes as ty
 
 
 class Record:
-    def __init__(self, name, fields, bases, cid, abstract=False):
+    def __init__(self, name, fields, bases, cid, abstract=False, pyclass=None):
         self.name, self.fields, self.bases, self.cid = name, fields, bases, cid
         self.abstract = abstract
+        self.pyclass = pyclass
 
 
 class Contract:
@@ -62,9 +63,9 @@ class Registry:
         self._cid = 0
 
     # ---- declaration API (names exported to sidecars) -------------------------------------
-    def record(self, name, fields=None, bases=(), abstract=False):
+    def record(self, name, fields=None, bases=(), abstract=False, pyclass=None):
         self._cid += 1
-        self.records[name] = Record(name, dict(fields or {}), list(bases), self._cid, abstract)
+        self.records[name] = Record(name, dict(fields or {}), list(bases), self._cid, abstract, pyclass)
 
     def ghost(self, name, typ):
         self.ghosts[name] = typ
@@ -80,9 +81,9 @@ class Registry:
     def axiom(self, name, vars, body, note="", patterns=None):
         self.axioms.append({"name": name, "vars": dict(vars), "body": body, "note": note, "patterns": patterns})
 
-    def lemma(self, name, vars, hyps, goal, note="", uses=()):
+    def lemma(self, name, vars, hyps, goal, note="", uses=(), strmode="string"):
         self.lemmas.append({"name": name, "vars": dict(vars), "hyps": list(hyps), "goal": goal, "note": note,
-                            "uses": list(uses)})
+                            "uses": list(uses), "strmode": strmode})
 
     def constant(self, dotted, typ):
         self.constants[dotted] = typ
